@@ -74,7 +74,7 @@ func c11Gen(r *driver.Rand, thorough bool) *driver.Plan {
 		}
 	}
 	if p.Mode != "pure" && r.Chance(1, 4) {
-		p.SetX("err_kind", 1+r.Intn(2))
+		p.SetX("err_kind", 1+r.Intn(3))
 	}
 	// consumer receive schedules on the virtual clock
 	c := &p.Consumers[0]
@@ -115,6 +115,9 @@ func c11Gen(r *driver.Rand, thorough bool) *driver.Plan {
 		if stage == "Emit" || slow || p.CancelStep >= 0 {
 			c.Abandon = -1 // keeps receiving until the close
 		}
+	}
+	if r.Chance(1, 8) {
+		p.SetX("late_build", 1+r.Intn(12)) // the context may be cancelled before the generator exists
 	}
 	genSched(r, p)
 	if p.Policy == driver.PolLowest || p.Policy == driver.PolRunBlock {
@@ -215,6 +218,13 @@ func c11Final(e *driver.Env) {
 			}
 			e.Probe("emit_ready_consumer_exact_ticks")
 		}
+	}
+	// C11.a: the sequence goes on until cancelled: a generator may only end on
+	// its own after a fail-fast error
+	endsItself := p.Mode == "lift" && firstFail(p, 1<<30) >= 0
+	if s.Out != nil && s.Out.Closed && !endsItself && (!e.Cancelled.Load() || s.Out.CloseSeq < e.CancelSeq) {
+		e.Failf("C11.a", "generator ended before it was cancelled", "%s/%s fail_at=%v: output closed at step %d after %d values, no cancel before that", p.Stage, p.Mode, p.FailAt, s.Out.CloseSeq, len(s.Out.Got))
+		return
 	}
 	if !e.Quiescent {
 		return
